@@ -101,6 +101,7 @@ def parse_case(line):
     c.bypass = o[5] == "1"
     c.fwd = "" if o[6] == "-" else o[6]
     c.flags = o[7] if len(o) > 7 else "000"
+    c.extra = o[8] if len(o) > 8 else "-+-+-"
     c.filters = []
     for fs in _list(f[6], ";"):
         attr, op, operand = fs.split("~", 2)
@@ -266,6 +267,8 @@ def oracle(case, impl):
         for req, _ in calls:
             if req.get("X", "000") != c.flags:
                 return f"backend {cid} did not get the request's include_trash/include_old_versions/distinct options"
+            if not case.startswith("hlist ") and req.get("Y", "-+-+-") != c.extra:
+                return f"backend {cid} did not get the request's where/include/cluster_id options"
     if c.login and c.login != c.local and not c.bypass:
         # conn.go UserList with a LoginCluster: not the federated list of the property. What its comment and
         # batchUpdateUsers promise: one call to the login cluster's backend (local if it has no proxy), options
@@ -448,6 +451,8 @@ def describe(cases, impl):
             nclusters[len(a.groups)] += 1
             if any(g != c.local and g not in c.remotes for g in a.groups):
                 d["federated with unknown cluster"] += 1
+        if c.extra != "-+-+-":
+            d["where/include/cluster_id set"] += 1
         for acts in c.scripts.values():
             for act in acts:
                 if act == "w":
@@ -499,7 +504,7 @@ def _operand(rng, uuids, allow_nonstring=True):
 def _fmt(kind, local, mx, remotes, opts, filters, world, scripts):
     o = "/".join([opts["count"] or "~", str(opts["limit"]), str(opts["offset"]), "+".join(opts["order"]) or "-",
                   "+".join(opts["select"]) if opts["select"] else "-", "1" if opts["bypass"] else "0", opts["fwd"] or "-",
-                  opts.get("flags", "000")])
+                  opts.get("flags", "000")] + ([opts["extra"]] if opts.get("extra") else []))
     w = ",".join(f"{u}@{ts}" for u, ts in world) or "-"
     s = ";".join(f"{i}={'|'.join(a)}" for i, a in scripts.items() if a) or "-"
     return f"list {kind} {local} {mx} {','.join(remotes) or '-'} {o} {';'.join(filters) or '-'} {w} {s}"
@@ -659,6 +664,13 @@ def _opts(rng, splittable=True):
         o["limit"] = rng.choice([-2, -100])
     if rng.random() < 0.2:
         o["flags"] = rng.choice(["100", "010", "001", "110", "111"])  # include_trash, include_old_versions, distinct
+    if rng.random() < 0.15:
+        # where / include / cluster_id: never read by the split, forwarded to every backend as they are
+        o["extra"] = "+".join([rng.choice(["-", "name=foo", "owner_uuid=zzzzz-tpzed-000000000000000", "uuid=x"]),
+                               rng.choice(["-", "container_uuid", "owner_uuid"]),
+                               rng.choice(["-", "-", "bbbbb", "zzzzz", "qqqqq"])])
+        if o["extra"] == "-+-+-":
+            o["extra"] = "name=foo+-+-"
     if not splittable:
         r = rng.random()
         if r < 0.25:
